@@ -25,33 +25,41 @@ Fixpoint lookup (fs : vfs) (url : str) : option sheet :=
    hrefs of loc and its ancestors.  Returns the loaded sheet and the fetcher
    calls in order (a target that cannot be read is asked for once:
    fixes/C19-import-not-fetched-twice.patch). *)
+Definition strip (r : rule) : rule :=
+  match r with RImport h m _ => RImport h m None | _ => r end.
+
+(* one rule; [rec anc loc src] loads the sheet [src] found at [loc] *)
+Definition load_rule (rec : list str -> str -> sheet -> sheet * list str)
+           (fs : vfs) (anc : list str) (loc : str) (r : rule) : rule * list str :=
+  match r with
+  | RImport href media _ =>
+    let full := urljoin loc href in
+    if nilb href then (RImport href media None, [])
+    else if mem_str full anc then (RImport href media None, [])      (* cyclic: not even fetched *)
+    else
+      match lookup fs full with
+      | Some src =>
+        let '(sub, l) := rec (full :: anc) full src in
+        (RImport href media (Some sub), full :: l)
+      | None => (RImport href media None, [full])
+      end
+  | _ => (r, [])
+  end.
+
+Fixpoint load_list (f : rule -> rule * list str) (s : sheet) : sheet * list str :=
+  match s with
+  | [] => ([], [])
+  | r :: rest =>
+    let '(r', log1) := f r in
+    let '(rest', log2) := load_list f rest in
+    (r' :: rest', log1 ++ log2)
+  end.
+
 Fixpoint load (fuel : nat) (fs : vfs) (anc : list str) (loc : str) (s : sheet) {struct fuel}
   : sheet * list str :=
   match fuel with
-  | O => (s, [])
-  | S fu =>
-    (fix go (s : sheet) : sheet * list str :=
-       match s with
-       | [] => ([], [])
-       | r :: rest =>
-         let '(r', log1) :=
-           match r with
-           | RImport href media _ =>
-             let full := urljoin loc href in
-             if nilb href then (RImport href media None, [])
-             else if mem_str full anc then (RImport href media None, [])
-             else
-               match lookup fs full with
-               | Some src =>
-                 let '(sub, l) := load fu fs (full :: anc) full src in
-                 (RImport href media (Some sub), full :: l)
-               | None => (RImport href media None, [full])
-               end
-           | _ => (r, [])
-           end in
-         let '(rest', log2) := go rest in
-         (r' :: rest', log1 ++ log2)
-       end) s
+  | O => (map strip s, [])
+  | S fu => load_list (load_rule (load fu fs) fs anc loc) s
   end.
 
 (* ------------------------------------------------- CSSStyleSheet.add *)
@@ -86,20 +94,25 @@ Definition same_other (r x : rule) : bool :=
   | _, _ => false
   end.
 
-(* insertRule(rule, index=None, inOrder=True) for the rule types used here *)
-Definition add (target : sheet) (r : rule) : sheet :=
+(* insertRule(rule, index=None, inOrder=True) for the rule types used here:
+   the index chosen ... *)
+Definition add_index (target : sheet) (r : rule) : nat :=
   if is_import r then
-    if existsb is_import target then insert_at (after_last_idx is_import target) r target
+    if existsb is_import target then after_last_idx is_import target
     else match target with
-         | x :: _ => if is_kind K_CHARSET x || is_kind K_COMMENT x
-                     then insert_at 1 r target else r :: target
-         | [] => [r]
+         | x :: _ => if is_kind K_CHARSET x || is_kind K_COMMENT x then 1%nat else 0%nat
+         | [] => 0%nat
          end
   else if is_namespace r then
-    if existsb (same_other r) target then target      (* "no doublettes": same prefix and URI *)
-    else if existsb is_namespace target then insert_at (after_last_idx is_namespace target) r target
-    else insert_at (first_idx (fun x => negb (is_import x) && negb (is_kind K_CHARSET x)) target) r target
-  else target ++ [r].
+    if existsb is_namespace target then after_last_idx is_namespace target
+    else first_idx (fun x => negb (is_import x) && negb (is_kind K_CHARSET x)) target
+  else length target.
+
+(* ... and the insertion; an @namespace with the prefix and URI of an
+   existing one is not inserted ("no doublettes") *)
+Definition add (target : sheet) (r : rule) : sheet :=
+  if is_namespace r && existsb (same_other r) target then target
+  else insert_at (add_index target r) r target.
 
 (* ------------------------------------------------------ resolveImports *)
 (* '/* START @import "%s" */' % href *)
